@@ -50,8 +50,11 @@ func (c04Sim) Decode(raw json.RawMessage) (interface{}, error) {
 
 func (c04Sim) Gen(prop, tier string, r *rand.Rand) interface{} {
 	l := genLayout(r, pick(r, "tiny", "small", "small", "edge", "four", "page"))
+	if r.IntN(25) == 0 {
+		l = genLayout(r, "epoch")
+	}
 	c := &C04Case{Layout: l, Clock0: genClock0(r, l)}
-	if chance(r, 0.12) {
+	if chance(r, 0.12) && l.MaxRet() < 1<<30 {
 		// edge clock domain: after 2038 (the format's timestamps are unsigned
 		// 32-bit, its durations signed 32-bit)
 		c.Clock0 = between(r, int64(math.MaxInt32)+1, int64(math.MaxUint32)-l.MaxRet()-2*400*86400)
